@@ -92,6 +92,7 @@ impl ArcIdleConfig {
             heartbeat_times: 0,
             last_effective_comm: None,
             idle_begin_at: None,
+            sent_since_rcvd: false,
         })))
     }
 
@@ -117,12 +118,18 @@ pub struct IdleTimer {
     heartbeat_times: u32,
     last_effective_comm: Option<Instant>,
     idle_begin_at: Option<Instant>,
+    // whether an effective packet has been sent since a packet was last received
+    sent_since_rcvd: bool,
 }
 
 impl IdleTimer {
     // Updates the timer when a packet is sent.
     pub fn on_sent(&mut self, packet_content: PacketContent) {
-        if packet_content == PacketContent::EffectivePayload {
+        // RFC 9000 10.1: sending restarts the idle timer only if nothing else has been sent
+        // since a packet was last received, otherwise endless retransmissions towards a
+        // silent peer would keep the connection alive forever
+        if packet_content == PacketContent::EffectivePayload && !self.sent_since_rcvd {
+            self.sent_since_rcvd = true;
             self.last_effective_comm = Some(Instant::now());
             self.heartbeat_times = 0;
             self.idle_begin_at = None;
@@ -131,6 +138,7 @@ impl IdleTimer {
 
     // Updates the timer when a packet is received.
     pub fn on_rcvd(&mut self, packet_content: PacketContent) {
+        self.sent_since_rcvd = false;
         if packet_content == PacketContent::EffectivePayload {
             self.last_effective_comm = Some(Instant::now());
             self.heartbeat_times = 0;
